@@ -235,12 +235,16 @@ def read_line(rng, c):
     return s
 
 
-def rand_ranges(rng, c, disjoint=False, allow_last=True):
+def rand_ranges(rng, c, disjoint=False, allow_last=True, focus=None):
     """(M,2) half-open pixel ranges with block-boundary alignments over-represented."""
     m = rng.choice([0, 1, 1, 2, 2, 3, 4])
     rows = []
     for _ in range(m):
         k = rng.randrange(c.ncov)
+        if focus and rng.random() < 0.6:
+            # start in / just before a coverage pixel the history works on (so that ranges run from
+            # uncovered into covered coverage pixels and vice versa)
+            k = max(0, min(c.ncov - 1, rng.choice(focus) - rng.choice([0, 1, 1, 2])))
         r = rng.random()
         if r < 0.25:
             a = k * c.nfine
@@ -276,14 +280,14 @@ def rand_ranges(rng, c, disjoint=False, allow_last=True):
     return rows
 
 
-def updr_line(rng, c, path=None):
+def updr_line(rng, c, path=None, focus=None):
     ops = c.ops()
     op = rng.choice(ops)
     path = path or rng.choice(['slice', 'expand'])
     need_disjoint = (op == 'replace') or (op == 'add' and not c.zero_sentinel())
-    rows = rand_ranges(rng, c, disjoint=need_disjoint)
+    rows = rand_ranges(rng, c, disjoint=need_disjoint, focus=focus)
     rtxt = ','.join("%d:%d" % ab for ab in rows) or '_'
-    if rng.random() < 0.15:
+    if rng.random() < 0.2:
         return "updr %s op=replace none=1 ranges=%s path=%s" % (c.name, rtxt, path)
     return "updr %s op=%s ranges=%s val=%s path=%s" % (c.name, op, rtxt, c.val(rng), path)
 
